@@ -412,12 +412,15 @@ func runC10(c *engine.Ctx) {
 		cfgs = append(cfgs, drv.Config{Kind: k})
 	}
 	// auto-bucket creation must not open a way around the name checks
+	if quick(c) {
+		cfgs = append(cfgs, drv.Config{Kind: drv.MultiDir, NoVersioning: true}, drv.Config{Kind: drv.SingleDir, NoVersioning: true}) // depth 1, see below
+	}
 	cfgs = append(cfgs, drv.Config{Kind: drv.Bolt, AutoBucket: true}, drv.Config{Kind: drv.MultiMem, AutoBucket: true}, drv.Config{Kind: drv.Mem, AutoBucket: true})
 	for _, cfg := range cfgs {
 		cfg := cfg
 		name := "C10/" + worldName(cfg)
 		d := maxD
-		if cfg.AutoBucket {
+		if cfg.AutoBucket || (quick(c) && cfg.Kind.IsDir()) {
 			d = 1
 		}
 		engine.RunSeq(c, engine.SeqSpec{Name: name, World: worldName(cfg), MaxDepth: d, NoCheck0: false,
